@@ -86,4 +86,12 @@ def main(argv=None):
     some_pvl = pvl.load(args.infile)
 
     formats[args.output_format].dump(some_pvl, args.outfile)
+
+    # argparse opened these files and nobody else will close them.  Text
+    # still in the output file's buffer is only written if the interpreter
+    # happens to finalize the layers of the file object in the right order
+    # at shutdown, so don't leave it to that.
+    for f in (args.infile, args.outfile):
+        if f is not sys.stdin and f is not sys.stdout:
+            f.close()
     return
